@@ -104,7 +104,8 @@ Definition grey_at (i : N) : res N := if i <? 4 then Ok i else Crash CIndex.
    cycles of mode 2, i.e. the literal range 0..39, so the OAM index 4*sprite is at most 156 *)
 Definition overlap_flag (s : scene) (ly sprite : N) : bool :=
   let startY := Mem.get (oam s) (u16 (u8 (sprite * 4))) in
-  negb (startY =? 0) && (sub8 startY 16 <=? ly) && (ly <? sub8 startY 8).
+  (* line := int(ppu.ly); line+16 >= int(startY) && line+8 < int(startY) *)
+  (startY <=? ly + 16) && (ly + 8 <? startY).
 
 Definition overlaps_for_line (s : scene) (ly : N) : list bool :=
   map (overlap_flag s ly) (upto 40).
@@ -119,8 +120,8 @@ Definition read_tile_pixel (s : scene) (tileNumber ox oy : N) : res N :=
   let bset := 0 <? N.land b p in
   Ok (match aset, bset with
       | false, false => 0
-      | false, true => 1
-      | true, false => 2
+      | true, false => 1
+      | false, true => 2
       | true, true => 3
       end).
 
@@ -170,7 +171,7 @@ Fixpoint sprite_scan (s : scene) (x y : N) (l : list (N * bool)) (st : sstate) :
           let ox' := if flag attributes 32 then sub8 7 ox else ox in
           let oy' := if flag attributes 64 then sub8 7 oy else oy in
           do p <- read_tile_pixel s tileNumber ox' oy';
-          let st' := mkSS p (flag attributes 128) (flag attributes 8)
+          let st' := mkSS p (flag attributes 128) (flag attributes 16)
                           (add16 spriteAddr 3 :: add16 spriteAddr 2 :: spriteAddr :: add16 spriteAddr 1
                            :: reads st) in
           if 0 <? p then Ok st' else sprite_scan s x y tl st'
